@@ -24,6 +24,9 @@ type c13Case struct {
 	SameKey   bool   `json:"fresh_terminal_reuses_key"`
 	Stagger   []int  `json:"call_stagger_us"`
 	ReadHold  int    `json:"read_hold_us"` // the read callback holds every message this long (widens the window between a read and its join)
+	// how the victim's key looks: the all-zero phone number, or keys made by WithKeyFunc(prefix + phone)
+	ZeroPhone bool   `json:"victim_has_the_all_zero_phone,omitempty"`
+	KeyPrefix string `json:"key_func_prefix,omitempty"`
 }
 
 var c13Faults = []string{"before_join", "close_with_queued", "close_on_command", "slow_write_callback", "close_at_timeout", "duplicate_key", "manager_lag"}
@@ -52,6 +55,8 @@ func genC13(t *rapid.T) c13Case {
 		c.WriteHold = 30000
 		c.Q = max(c.Q, 2)
 	}
+	c.ZeroPhone = rapid.IntRange(0, 4).Draw(t, "zero_phone") == 0
+	c.KeyPrefix = rapid.SampledFrom([]string{"", "", "", "00", "0"}).Draw(t, "key_prefix")
 	// commands without a timeout (OverTimeDuration < 0) come back only with an answer or when the connection ends; not
 	// in duplicate_key, where the owner stays until its calls have returned
 	noTimeout := 0
@@ -74,9 +79,12 @@ func genC13(t *rapid.T) c13Case {
 }
 
 func c13Scenario(c c13Case) Scenario {
-	sc := Scenario{WriteHoldUs: c.WriteHold, ReadHoldUs: c.ReadHold}
-	victim := identity{Digits: "13800139001", V2019: c.V2019}
-	fresh := identity{Digits: "13800139002", V2019: !c.V2019}
+	sc := Scenario{WriteHoldUs: c.WriteHold, ReadHoldUs: c.ReadHold, KeyPrefix: c.KeyPrefix}
+	victim := identity{Digits: "13800139001", V2019: c.V2019, Prefix: c.KeyPrefix}
+	if c.ZeroPhone {
+		victim.Digits = "0"
+	}
+	fresh := identity{Digits: "13800139002", V2019: !c.V2019, Prefix: c.KeyPrefix}
 	if c.SameKey {
 		fresh = victim
 	}
@@ -119,7 +127,7 @@ func c13Scenario(c c13Case) Scenario {
 	}
 	sc.Actors = append(sc.Actors, Actor{Name: "victim", Kind: "terminal", Steps: ts})
 	goParties := 2
-	busy := identity{Digits: "13800139003", V2019: c.V2019}
+	busy := identity{Digits: "13800139003", V2019: c.V2019, Prefix: c.KeyPrefix}
 	if c.Fault == "manager_lag" {
 		goParties = 3
 		sc.Actors = append(sc.Actors, Actor{Name: "busy", Kind: "terminal", Steps: []Step{{Op: "dial"}, {Op: "respond", Rules: []Rule{{Behaviour: "answer"}}},
@@ -258,6 +266,9 @@ func checkC13(c c13Case, _ *kit.Collector) kit.Result {
 	}
 	if noTimeoutCalls {
 		res.Labels = append(res.Labels, "calls_without_timeout")
+	}
+	if c.ZeroPhone || c.KeyPrefix != "" {
+		res.Labels = append(res.Labels, "key_with_leading_zeros")
 	}
 	if c.Q >= 8 {
 		res.Labels = append(res.Labels, "q_8..9")
